@@ -1171,6 +1171,12 @@ def encryptor_suite(ctx, w):
             ctx.fail('independent-encryptor', 'model encryptor failed: ' + mo[:80], case)
             continue
         raw = unhx(mo[3:])
+        if i % 4 == 2:
+            # the sender STREAMS the encrypted data packet (RFC 4880 4.2.2.4): partial body lengths, the last part closed by a one-,
+            # two- or five-octet length according to what is left
+            streamed = stream_last_packet(raw, rng)
+            if streamed is not None:
+                raw = streamed; case['streamed'] = True
         case['blob'] = raw.hex() if len(raw) < 6000 else None
         for r in recips:
             blob = raw if i % 3 else armor(raw)
@@ -1178,6 +1184,28 @@ def encryptor_suite(ctx, w):
             if o != ('ok', want):
                 ctx.fail('independent-encryptor', 'PGPy does not decrypt a well-formed RFC 4880/6637 message to the original',
                          dict(case, recipient=list(r), impl=repr(o)[:300]))
+
+
+def stream_last_packet(raw, rng):
+    """re-frame the LAST packet of `raw` (the encrypted data packet) with partial body lengths; None if it is too short (first part >= 512)"""
+    from . import sigcommon as _S
+    pk = _S.split_packets(raw)
+    tag, body, whole = pk[-1]
+    if tag not in (18, 9) or len(body) < 512 + 1:
+        return None
+    out, pos = bytearray([0xc0 | tag]), 0
+    first = True
+    while True:
+        left = len(body) - pos
+        ks = [k for k in range(9 if first else 0, 14) if (1 << k) <= left - 1]
+        want_tail = rng.choice(['two', 'two', 'one', 'any'])
+        if not ks or (not first and ((want_tail == 'two' and 192 <= left < 8384) or (want_tail == 'one' and left < 192) or rng.random() < 0.2)):
+            n = left
+            out += (bytes([n]) if n < 192 else bytes([((n - 192) >> 8) + 192, (n - 192) & 0xff]) if n < 8384 else b'\xff' + n.to_bytes(4, 'big')) + body[pos:]
+            break
+        k = rng.choice(ks[:3] if rng.random() < 0.7 else ks)
+        out += bytes([224 + k]) + body[pos:pos + (1 << k)]; pos += 1 << k; first = False
+    return b''.join(x[2] for x in pk[:-1]) + bytes(out)
 
 
 def _ref_pkesk_open(m):
